@@ -32,6 +32,10 @@ mk MC_Louvain_t_und4w.cfg     4 FALSE FALSE 1 1 2 FALSE
 mk MC_Louvain_t_fund4w.cfg    4 FALSE TRUE  3 4 2 FALSE
 mk MC_Louvain_t_dir4.cfg      4 TRUE  FALSE 1 1 1 FALSE
 mk MC_Louvain_t_fdir4.cfg     4 TRUE  TRUE  5 4 1 FALSE
+mk MC_Louvain_q_und3d.cfg     3 FALSE FALSE 1 1 2 FALSE; echo "CONSTANT DiagVals <- DiagVals01" >> MC_Louvain_q_und3d.cfg
+mk MC_Louvain_t_fund3d.cfg    3 FALSE TRUE  3 4 2 FALSE; echo "CONSTANT DiagVals <- DiagVals01" >> MC_Louvain_t_fund3d.cfg
+mk MC_Louvain_t_dir3d.cfg     3 TRUE  FALSE 1 1 1 FALSE; echo "CONSTANT DiagVals <- DiagVals01" >> MC_Louvain_t_dir3d.cfg
+mk MC_Louvain_t_und4d.cfg     4 FALSE FALSE 1 1 1 FALSE; echo "CONSTANT DiagVals <- DiagVals01" >> MC_Louvain_t_und4d.cfg
 mk Gen_Louvain_und4.cfg       4 FALSE FALSE 1 1 2 TRUE
 mk Gen_Louvain_und5.cfg       5 FALSE FALSE 3 4 1 TRUE
 mk Gen_Louvain_fund4.cfg      4 FALSE TRUE  5 4 2 TRUE
